@@ -130,12 +130,12 @@ reg("C03", "other",
     "exhaustion inside std/tokio.")
 
 reg("C04", "other",
-    [T.t_codes, T.t_hdr, P.t_props, P.h_proplen, P.h_dup, P.h_bytevals, P.l_propdec, PL.h_exactfill, B.t_bits, B.h_checked_sub,
+    [T.t_codes, T.t_hdr, P.t_props, P.t_props_whole, P.h_proplen, P.h_dup, P.h_bytevals, P.l_propdec, PL.h_exactfill, B.t_bits, B.h_checked_sub,
      B.l_consume, C.h_ctor, C.h_utf8, T.t_varint_readers, P3.h_shortform, P3.t_prims, C.h_accessors, T.t_width],
     "NOT decided: language equality between the strict decoder's accepted set and the MQTT grammar, nor the conjunction of the "
     "clauses below into it. Decided exactly against independent OASIS tables (spec_mqtt.py): header nibble/flag table for all 256 "
     "control bytes (T-hdr), accepted domain of every code table (T-codes), permitted property set per packet and its rejecting default "
-    "arm (T-props), duplicate rejection before every store (H-dup), 0/1 byte properties (H-bytevals), exact property length test "
+    "arm (T-props; also each property-set decoder evaluated as a whole function on one-property blocks, the empty block and a block one byte short), duplicate rejection before every store (H-dup), 0/1 byte properties (H-bytevals), exact property length test "
     "(H-proplen), exact fill of the frame and zero remaining length for body-less packets in the poll decoder (P-complete/P-body), "
     "CONNECT flag / subscription-option / CONNACK-flag masks and validators over all 256 bytes (T-bits), checked_sub on every decrement, "
     "validated constructors for pid/topic/filter/var-int (H-ctor) with the variable byte integer's bound at exactly 2^28 (T-width), UTF-8 validation before string construction (H-utf8), the three v5 "
@@ -207,13 +207,14 @@ reg("C10", "other",
 
 reg("C11", "other",
     [L.l_eq, B.l_cover, T.t_bij, PN.s_panic_encode, T.t_width, C.h_ctor, P.l_propdec, P.h_proplen, B.t_bits, L.t_ctl, P3.h_shortform,
-     TR.l_trace, P3.t_prims, T.t_proto, P.t_prop3, P.h_bytevals, IO.h_async1, IO.s_writers, T.t_varint_writer],
+     TR.l_trace, P3.t_prims, T.t_proto, P.t_prop3, P.h_bytevals, IO.h_async1, IO.s_writers, T.t_varint_writer, D.h_hdr1, D.h_dispatch3],
     "NOT decided: the runtime round trip over accepted byte strings. Decided (necessary): the encoder is length-exact on every "
     "value a decoder can construct, not only canonical ones (L-eq quantifies over all atom assignments); every length-bearing "
     "field is written whenever present, depending only on itself (L-cover); every enum value a from_u8 table returns is written "
     "back as the byte it came from (T-bij); every flag/bit a decoder accepts is written back (T-bits, T-ctl); every length is written as the variable byte integer the readers invert (V-writer); the short forms agree "
     "(H-shortform); no panic site in the encode closure other than the known oversize expect (S-panic-enc; F5 is unreachable for "
-    "decoder-built packets); decoders build validated types only through their constructors (H-ctor).")
+    "decoder-built packets); decoders build validated types only through their constructors (H-ctor); what one front-end accepts the others "
+    "accept, since all obtain the header through the same Header::new_with and run the same body decoders (H-hdr1, H-dispatch3).")
 
 reg("C12", "proof",
     [C.h_priv, C.h_ctor, C.h_utf8, C.h_payfmt, C.h_accessors, T.t_width, T.t_flen],
@@ -227,14 +228,15 @@ reg("C12", "proof",
     "'/' is C16 territory and not decided.")
 
 reg("C13", "proof",
-    [T.t_proto, C.s_gate, C.h_protoread, T.t_hdr, D.h_block, D.h_dispatch3],
+    [T.t_proto, C.s_gate, C.h_protoread, T.t_hdr, D.h_block, D.h_dispatch3, PL.h_exactfill],
     "All obligations exact: Protocol::new matches its raw arguments against exactly (MQIsdp,3) (MQTT,4) (MQTT,5), the default arm "
     "only returns InvalidProtocol(name, level) / InvalidString, to_pair is the inverse (T-proto); Protocol::decode_async reads "
     "exactly name then level (H-protoread); both decode_with_protocol start with the version gate returning "
     "UnexpectedProtocol(protocol parameter) before any read, accepted sets {V310,V311} / {V500} (S-gate); Connect::decode_async is "
     "Protocol::decode_async then decode_with_protocol with nothing in between (H-compose); the packet front-ends hand the caller's reader "
     "to Connect::decode_async without reading any body byte first (H-dispatch3) and the blocking front-end is the async one with only end of "
-    "input mapped to Ok(None), so the refusal is reported as soon as the level byte is there (H-block).")
+    "input mapped to Ok(None), so the refusal is reported as soon as the level byte is there (H-block); the poll front-end returns the body "
+    "decoder's error unchanged and leaves the refused frame in the caller-held state, where the other family's entry point can go on (P-body).")
 
 reg("C14", "other",
     [IO.s_ioerr, IO.s_readers, IO.s_writers, IO.h_fromio, IO.h_toio, IO.h_noswallow, IO.t_eof, IO.h_async1, PL.h_pending, PL.h_total],
@@ -247,13 +249,15 @@ reg("C14", "other",
     "unchanged and EOF as UnexpectedEof (P-header/P-body).")
 
 reg("C15", "other",
-    [T.t_width, T.t_varint_writer, T.t_varint_readers, C.h_ctor, PL.h_total, D.h_block, D.h_hdr1],
+    [T.t_width, T.t_varint_writer, T.t_varint_readers, C.h_ctor, PL.h_total, D.h_block, D.h_hdr1, L.l_eq],
     "The width helpers touch their argument only through comparisons with constants, so T-width decides their laws for all 2^28 "
     "values from the reconstructed piecewise tables (var_int_len, total_len, header_len, remaining_len, VarByteInt bound, cross law). "
     "V-reader / P-header decide that the standalone reader and the poll header state machine have the same transfer function (mask, "
     "step, continuation, 4-byte cap, error) equal to the spec; V-writer the writer's; P-complete that the poll decoder's reported total "
     "uses the number of length bytes consumed; every front-end reaches the reader unconditionally: the blocking decoders are the async "
-    "ones with only end of input mapped to Ok(None), and all obtain the header through decode_raw_header / Header::new_with (H-block, H-hdr1). NOT decided: decode(write(n)) = n as an arithmetic identity (follows from the two "
+    "ones with only end of input mapped to Ok(None), and all obtain the header through decode_raw_header / Header::new_with (H-block, H-hdr1); "
+    "every place that reports the size of an encoded variable byte integer (property lengths, subscription identifiers) reports what the "
+    "writer emits there (L-eq). NOT decided: decode(write(n)) = n as an arithmetic identity (follows from the two "
     "transfer functions by the textbook argument; stated, not mechanised).")
 
 reg("C17", "other",
@@ -276,7 +280,7 @@ reg("C18", "proof",
     "the constructor accepts the string read -- no further condition on the value -- and a refusal becomes InvalidResponseTopic (H-topicvals).")
 
 reg("C20", "other",
-    [RA.h_raise, RA.h_order, P.t_props, P.h_proplen, P.h_dup, P.h_bytevals, D.h_dispatch3, PL.h_exactfill, D.h_block,
+    [RA.h_raise, RA.h_order, P.t_props, P.t_props_whole, P.h_proplen, P.h_dup, P.h_bytevals, D.h_dispatch3, PL.h_exactfill, D.h_block,
      IO.h_noswallow, T.t_codes, B.h_checked_sub, B.t_bits, C.h_utf8],
     "NOT decided: that a given byte-level malformation of a given packet reaches the site the catalogue names (path feasibility "
     "over inputs). Decided: every raise site carries the value its guard tested (H-raise payload rule), each documented variant is "
